@@ -219,3 +219,15 @@ add("C21", "repeated iteration aliases the previous seed sequence", "nifty/cl/mi
 add("C21", "resume rebuilds the state without the key", "nifty/re/optimize_kl.py", "        opt_vi_st = opt_vi_st._replace(config=opt_vi_st_init.config)",
     "        opt_vi_st = opt_vi_st_init._replace(nit=opt_vi_st.nit, sample_state=opt_vi_st.sample_state, minimization_state=opt_vi_st.minimization_state)", "R21.8")
 VARIANTS = V
+
+GRP = "nifty/re/multi_grid/grid.py"
+add("C31", "periodic parent divides by own split", GRP, "        return index // self.parent_splits[bc]\n", "        return index // self.splits[bc]\n", "R31.1")
+add("C31", "periodic coordinate without half-cell offset", GRP, "        return (index + 0.5) / self.shape[slc]", "        return index / self.shape[slc]", "R31.1")
+add("C31", "open parent forgets the padding", GRP, "        return (index // self.parent_splits[bc]) + self.parent_padding[bc]", "        return index // self.parent_splits[bc]", "R31.2")
+add("C31", "open shifts recurrence without padding", GRP, "            shifts = si * (shifts + pd)", "            shifts = si * shifts + pd", "R31.2")
+add("C31", "open shape recurrence single padding", GRP, "            shp = si * (shp - 2 * pd)\n            shifts", "            shp = si * (shp - pd)\n            shifts", "R31.2")
+add("C31", "open coord2index adds the shift", GRP, "index = coord * shp[slc] - self.shifts[slc] - 0.5", "index = coord * shp[slc] + self.shifts[slc] - 0.5", "R31.2")
+add("C31", "open children clip off by one", GRP, "return super().children(index.clip(lo, hi - 1) - lo)", "return super().children(index.clip(lo, hi) - lo)", "R31.2")
+add("C31", "flat children converted at the wrong level", GRP, "        return self.index2flatindex(children, +1)", "        return self.index2flatindex(children)", "R31.3")
+add("C31", "flat parent level shift sign", GRP, "        return self.index2flatindex(window, -1)", "        return self.index2flatindex(window, +1)", "R31.3")
+VARIANTS = V
